@@ -39,6 +39,9 @@ pub struct S {
     /// the root uses the recreate strategy and is restarted once before the broadcasts: a restart
     /// is not a termination, the children stay
     pub restart_root: bool,
+    /// every parent's stopped() takes a scheduling round (children must outlive it), and the
+    /// root says goodbye from it: a last broadcast (type, id) issued in stopped()
+    pub slow_stop: Option<(u8, u32)>,
 }
 
 const PANIC_MSG: u32 = 700;
@@ -62,6 +65,14 @@ impl Scene for S {
             Cause::StoppedPanic => v[0].stopped_panic = true,
             Cause::TimeoutFail(_) => v[0].work.push((SLOW_MSG, Work { sleep: 5, ..Work::default() })),
             _ => {}
+        }
+        if let Some((ty, id)) = self.slow_stop {
+            for n in &self.nodes {
+                if !self.children_of(n.role).is_empty() {
+                    v[n.role as usize].stopped_yields = 1;
+                }
+            }
+            v[0].stopped_actions.push(Action::Broadcast { ty, id });
         }
         v
     }
@@ -225,8 +236,10 @@ impl Scene for S {
             }
         }
         // broadcasts: exactly once to each child registered under the type, to nobody else
-        for (ty, id) in &self.bcasts {
-            let delivered_by_root = an.exit_of_msg(0, *id).is_some();
+        // (the goodbye broadcast counts from the root's completed stopped())
+        let goodbye = self.slow_stop.filter(|_| stopped_exit(0).is_some());
+        for (ty, id) in self.bcasts.iter().chain(goodbye.iter()) {
+            let delivered_by_root = an.exit_of_msg(0, *id).is_some() || goodbye == Some((*ty, *id));
             for n in self.nodes.iter().filter(|n| n.parent.is_some()) {
                 let got = an.enters.iter().filter(|e| e.a == n.role && e.cb == (Cb::Bcast { ty: *ty, id: *id })).count();
                 let want = usize::from(delivered_by_root && n.parent == Some(0) && n.reg == Reg::Ty(*ty));
@@ -298,7 +311,7 @@ fn tree_name(nodes: &[Node]) -> String {
         .join(",")
 }
 
-fn cases(tier: Tier) -> Vec<Case> {
+fn base_cases(tier: Tier) -> Vec<Case> {
     let mut v = vec![];
     let root = Node { role: 0, parent: None, reg: Reg::Add, outside: false, outside_stops: false };
     let n = |role, parent, reg, outside| Node { role, parent: Some(parent), reg, outside, outside_stops: false };
@@ -334,15 +347,24 @@ fn cases(tier: Tier) -> Vec<Case> {
                         desc: format!("children tree={} cause={:?} bcasts={:?} mailbox={}", tree_name(tree), cause, bc, mb.name()),
                         exec: ExecCfg { horizon: 30, cancel: if let Cause::Cancel(j) = cause { Some((root_spawn_index(tree), j)) } else { None }, ..ExecCfg::default() },
                         bound: if tree.len() >= 4 { Some(if tier == Tier::Quick { 3 } else { 5 }) } else if big { Some(if tier == Tier::Quick { 4 } else { 7 }) } else { None },
-                        scene: Box::new(S { nodes: tree.clone(), cause, bcasts: bc.clone(), mailbox: mb, pid: "C16", restart_root: false }),
+                        scene: Box::new(S { nodes: tree.clone(), cause, bcasts: bc.clone(), mailbox: mb, pid: "C16", restart_root: false, slow_stop: None }),
                     });
+                    // parents whose stopped() takes a while and says goodbye to the children
+                    if matches!(cause, Cause::StopClient | Cause::LastDrop) && bc.len() <= 1 {
+                        v.push(Case {
+                            desc: format!("children [slow stopped() with a goodbye broadcast] tree={} cause={:?} bcasts={:?} mailbox={}", tree_name(tree), cause, bc, mb.name()),
+                            exec: ExecCfg { horizon: 30, ..ExecCfg::default() },
+                            bound: if tree.len() >= 4 { Some(if tier == Tier::Quick { 3 } else { 5 }) } else if big { Some(if tier == Tier::Quick { 4 } else { 7 }) } else { None },
+                            scene: Box::new(S { nodes: tree.clone(), cause, bcasts: bc.clone(), mailbox: mb, pid: "C16", restart_root: false, slow_stop: Some((1, 650)) }),
+                        });
+                    }
                     // the same with a restart of the root first
                     if matches!(cause, Cause::StopClient | Cause::LastDrop | Cause::HandlerPanic(_)) && tree.len() <= 3 && !bc.is_empty() {
                         v.push(Case {
                             desc: format!("children [root restarted first] tree={} cause={:?} bcasts={:?} mailbox={}", tree_name(tree), cause, bc, mb.name()),
                             exec: ExecCfg { horizon: 30, ..ExecCfg::default() },
                             bound: if big { Some(if tier == Tier::Quick { 4 } else { 7 }) } else { None },
-                            scene: Box::new(S { nodes: tree.clone(), cause, bcasts: bc.clone(), mailbox: mb, pid: "C16", restart_root: true }),
+                            scene: Box::new(S { nodes: tree.clone(), cause, bcasts: bc.clone(), mailbox: mb, pid: "C16", restart_root: true, slow_stop: None }),
                         });
                     }
                 }
@@ -355,6 +377,12 @@ fn cases(tier: Tier) -> Vec<Case> {
 /// the root is spawned last (bottom-up), so its spawn index is the number of other nodes
 pub fn root_spawn_index(tree: &[Node]) -> usize {
     tree.len() - 1
+}
+
+fn cases(tier: Tier) -> Vec<Case> {
+    // neutral re-configurations (see check::widen); a restart cannot be expressed on the stream loop
+    let no_restart = |d: &str| !d.contains("[root restarted first]");
+    crate::check::widen(&|| base_cases(tier), &|_| true, &|_| true, Some(&no_restart))
 }
 
 pub fn property() -> Property {
